@@ -528,6 +528,30 @@ Proof.
   repeat (split; [reflexivity|]). vm_compute. reflexivity.
 Qed.
 
+(* ---- the boundary between "expand" and "unknown body" is the SHALLOW is_known ------------------ *)
+(* expandBlocks asks forEachVal.IsKnown(), not IsWhollyKnown(): iteration_order needs
+   [is_known] only, so a collection whose length and keys are known but which CONTAINS
+   unknown values (here a list with an unknown element; wholly_known = false) satisfies its
+   hypotheses and expands to one ordinary block per element, the unknown reaching the
+   content through the iterator; only a collection unknown as a whole takes
+   unknown_for_each_single_unknown_block. *)
+Definition pu_val : val := VList TStr [VStr str_a; VUnk TStr rf_none].
+Definition pu_item : ditem :=
+  DDynamic str_b (ELit pu_val) None [] [DAttr str_x (EScopeTrav str_b [SAttr s_value])].
+Definition pu_schema : schema1 := mkSchema [] [(str_b, 0)].
+Example partially_unknown_for_each_expands :
+  wholly_known pu_val = false /\ is_known pu_val = true /\ is_null pu_val = false
+  /\ can_iterate (fst (unmark pu_val)) = true /\ is_marked (fst (unmark pu_val)) = false
+  /\ value [] (ELit pu_val) = (pu_val, [])
+  /\ item_err (fresh [pu_item] [] None []) pu_schema pu_item = false
+  /\ map (fun blk => (xb_unknown (xb_body blk),
+                      map (fun a => fst (xvalue [] (snd a)))
+                          (xc_attrs (xb_content (mkSchema [(str_x, false)] []) (xb_body blk)))))
+         (item_blocks (fresh [pu_item] [] None []) pu_schema pu_item)
+     = [(false, [VStr str_a]); (false, [VUnk TStr rf_none])].
+Proof. repeat split; vm_compute; reflexivity. Qed.
+
+Print Assumptions partially_unknown_for_each_expands.
 Print Assumptions content_blocks_by_item.
 Print Assumptions unknown_for_each_single_unknown_block.
 Print Assumptions empty_for_each_no_blocks.
